@@ -189,13 +189,6 @@ theorem compileRoutines_spec {ms : Macros} (hms : MsOK ms) : ∀ (rs : List Rout
 
 /-! ### the front end -/
 
-/-- the decidable guard of `compile_closed`: no operation written in a routine or macro (plain operation, inline or
-with-block context op, switch header operation) is named like an op of `OPS_WITH_JUMP_TO_MEM_OFFSET` -/
-def NoUserJumpOps (p : Program) : Prop :=
-  (∀ m ∈ p.macros, okStmts m.body = true) ∧ (∀ r ∈ p.routines, okStmts r.body = true)
-
-instance (p : Program) : Decidable (NoUserJumpOps p) := by unfold NoUserJumpOps; infer_instance
-
 theorem wrapAssert_ok {α : Type} {x : Except Err α} {a : α} (h : wrapAssert x = .ok a) : x = .ok a := by
   unfold wrapAssert at h
   split at h
